@@ -18,11 +18,17 @@ use tracing::warn;
 
 use super::version_manager::EpochOp;
 use super::{SecondaryStorage, SecondaryTable, StorageResult, TracedStorageError};
-use crate::catalog::{ColumnCatalog, ColumnId, SchemaId, TableRefId};
+use crate::catalog::{ColumnCatalog, ColumnId, SchemaId, TableId, TableRefId};
 
 #[derive(Clone, Debug, Serialize, Deserialize)]
 pub struct CreateTableEntry {
     pub schema_id: SchemaId,
+    /// The id given to the table. Views and indexes take their ids from the same counter but are
+    /// not logged, so replaying `CreateTable` records in order does not reproduce the ids that
+    /// the `AddRowSet` / `AddDV` / `DropTable` records refer to. (`None` in manifests written
+    /// before the id was recorded.)
+    #[serde(default)]
+    pub table_id: Option<TableId>,
     pub table_name: String,
     pub column_descs: Vec<ColumnCatalog>,
     pub ordered_pk_ids: Vec<ColumnId>,
@@ -216,6 +222,7 @@ impl SecondaryStorage {
             table_name,
             column_descs,
             ordered_pk_ids,
+            table_id: recorded_table_id,
         } = entry.clone();
 
         let schema = self
@@ -225,15 +232,22 @@ impl SecondaryStorage {
         if schema.get_table_by_name(&table_name).is_some() {
             return Err(TracedStorageError::duplicated("table", table_name));
         }
-        let table_id = self
-            .catalog
-            .add_table(
+        let table_id = match recorded_table_id {
+            Some(table_id) => self.catalog.add_table_with_id(
+                schema_id,
+                table_id,
+                table_name.clone(),
+                column_descs.to_vec(),
+                ordered_pk_ids.clone(),
+            ),
+            None => self.catalog.add_table(
                 schema_id,
                 table_name.clone(),
                 column_descs.to_vec(),
                 ordered_pk_ids.clone(),
-            )
-            .map_err(|_| TracedStorageError::duplicated("table", table_name))?;
+            ),
+        }
+        .map_err(|_| TracedStorageError::duplicated("table", table_name))?;
 
         let id = TableRefId {
             schema_id,
@@ -261,8 +275,9 @@ impl SecondaryStorage {
         column_descs: &[ColumnCatalog],
         ordered_pk_ids: &[ColumnId],
     ) -> StorageResult<()> {
-        let entry = CreateTableEntry {
+        let mut entry = CreateTableEntry {
             schema_id,
+            table_id: None,
             table_name: table_name.to_string(),
             column_descs: column_descs.to_vec(),
             ordered_pk_ids: ordered_pk_ids.to_vec(),
@@ -276,6 +291,8 @@ impl SecondaryStorage {
         {
             return Err(TracedStorageError::duplicated("table", table_name));
         }
+
+        entry.table_id = Some(self.catalog.reserve_table_id(schema_id));
 
         // persist to manifest first
         self.version
